@@ -1,6 +1,5 @@
 import Driver.Lat
 import Pcore.Model.DescribeSig
-import Pcore.Model.DescribeCallable
 /-!
   Driver op of C19 for the STRUCTURE of the mismatch description (syntax in harness/c19/descs.go):
 
@@ -76,30 +75,13 @@ def itemStr : Mismatch → String
   | .extraneousKey p k => s!"(xk {pathStr p} {hexOfString k})"
   | .unresolvedTypeReference p k => s!"(utr {pathStr p} {hexOfString k})"
   | .typeMismatch p e a => s!"(tm {pathStr p} ({" ".intercalate (expHeads e)}) {tyName a})"
-  | .typeMismatchC p e a => s!"(tm {pathStr p} ({" ".intercalate (expHeads e)}) {if a.1 then "Optional" else "Callable"})"
   | .patternMismatch p e a => s!"(pm {pathStr p} {boolStr (patHead e).1} {(patHead e).2} {tyName a})"
   | .sizeMismatch p e a => s!"(sz {pathStr p} {rng2 e} {rng2 a})"
   | .countMismatch p e a => s!"(cnt {pathStr p} {rng2 e} {rng2 a})"
 
 /-! the FULL payloads (structured observation through the hook px.VerifDescribe): type terms in the syntax of harness/lat/doc.go; the two
     members of RichData outside the term language are the atoms `typeset` / `deferred`; a Variant — given or built by a merge — is `(var …)` -/
-def paramsStr : Option (List Ty × Option Rng) → String
-  | none => "n"
-  | some p => Lat.tyStr (paramTuple p)
-def retStr : Option Ty → String
-  | none => "n"
-  | some t => Lat.tyStr t
-def ct0Str (c : CT0) : String := s!"(callable {paramsStr c.params} {retStr c.ret} n)"
-def blkStr (b : Blk) : String := if b.1 then s!"(opt {ct0Str b.2})" else ct0Str b.2
-def ctStr (c : CT) : String :=
-  s!"(callable {paramsStr c.params} {retStr c.ret} " ++
-    (match c.block with | none => "n" | some b => (if b.1 then "(o " else "(r ") ++ paramsStr b.2.params ++ " " ++ retStr b.2.ret ++ ")") ++ ")"
-def cactStr : CAct → String
-  | .callable c => ctStr c
-  | .ty t => Lat.tyStr t
-
 def atomFull : Atom → String
-  | .callable o c => if o then s!"(opt {ctStr c})" else ctStr c
   | .ty t => Lat.tyStr (expandAlias t)
   | .typeSet => "typeset"
   | .deferred => "deferred"
@@ -110,7 +92,6 @@ def expFull : Exp → String
 
 def itemFull : Mismatch → String
   | .typeMismatch p e a => s!"(tm {pathStr p} {expFull e} {Lat.tyStr (expandAlias a)})"
-  | .typeMismatchC p e a => s!"(tm {pathStr p} {expFull e} {if a.1 then s!"(opt {ctStr a.2})" else ctStr a.2})"
   | .patternMismatch p e a => s!"(pm {pathStr p} {Lat.tyStr (expandAlias e)} {Lat.tyStr (expandAlias a)})"
   | m => itemStr m
 
@@ -145,34 +126,7 @@ def descs (e a : Sexp) : String :=
       else render (!al) (describe Lat.cfg Lat.sfh e a (subjectPath "x"))
   | _, _ => "bad-op"
 
-def paramsOf : Sexp → Option (Option (List Ty × Option Rng))
-  | .atom "n" => some none
-  | e => match Lat.ty? e with
-         | some (.tuple ts g) => some (some (ts, g))
-         | _ => none
-
-def retOf : Sexp → Option (Option Ty)
-  | .atom "n" => some none
-  | e => (Lat.ty? e).map some
-
-def blkOf : Sexp → Option (Option Blk)
-  | .atom "n" => some none
-  | .list [.atom b, p, r] => do
-      let o ← (match b with | "r" => some false | "o" => some true | _ => none)
-      let p ← paramsOf p
-      let r ← retOf r
-      pure (some (o, ⟨p, r⟩))
-  | _ => none
-
-def ctOf : Sexp → Option CT
-  | .list [.atom "callable", p, r, b] => do
-      let p ← paramsOf p
-      let r ← retOf r
-      let b ← blkOf b
-      pure ⟨p, r, b⟩
-  | _ => none
-
-/-! ### `sigd (SIG*) ARGS [BLOCK]` — px.DescribeSignatures(signatures, ARGS, block); BLOCK ::= n | (callable P R B), the signature of the
+/-! ### `sigd (SIG*) ARGS [BLOCK]` — px.DescribeSignatures(signatures, ARGS, block); BLOCK ::= n | a Callable term (call P R B), the signature of the
     lambda handed to the call (absent = n)
     SIG ::= ((T*) LO HI BLK) | nilparams     BLK ::= n | r | o   (no block type / a required block / an optional block)
     parameter names are "1" … "n" (CallableType.ParameterNames)
@@ -182,8 +136,8 @@ def sigOf : Sexp → Option Sig
   | .list [.list ts, lo, hi, .atom b] => do
       let tys ← ts.mapM Lat.ty?
       let r ← Lat.rngOf lo hi
-      let b11 : CT0 := ⟨some ([.unit], some ⟨1, 1⟩), none⟩     -- Callable[1, 1] as ParseType builds it: the parameter tuple Tuple[Unit, 1, 1]
-      let blk ← (match b with | "n" => some (none : Option Blk) | "r" => some (some (false, b11)) | "o" => some (some (true, b11)) | _ => none)
+      let b11 : Ty := .callable (some (.tuple [.unit] (some ⟨1, 1⟩))) none none     -- Callable[1, 1] as ParseType builds it: Tuple[Unit, 1, 1]
+      let blk ← (match b with | "n" => some (none : Option Ty) | "r" => some (some b11) | "o" => some (some (.optional b11)) | _ => none)
       pure { params := some (tys, r), names := (List.range tys.length).map fun i => toString (i + 1), block := blk }
   | _ => none
 
@@ -195,7 +149,7 @@ def renderS : SRes → String
 
 def sigd (sigs args blk : Sexp) : String :=
   if hasAlias sigs || hasAlias args then "alias" else
-  match sigs, (match blk with | .atom "n" => some (none : Option CT) | b => (ctOf b).map some) with
+  match sigs, (match blk with | .atom "n" => some (none : Option Ty) | b => (Lat.ty? b).map some) with
   | .list ss, some ab =>
     (match ss.mapM sigOf, Lat.ty? args with
      | some sgs, some a =>
@@ -204,37 +158,7 @@ def sigd (sigs args blk : Sexp) : String :=
      | _, _ => "bad-op")
   | _, _ => "bad-op"
 
-/-! ### `descc C X` — px.VerifDescribe("x", C, X) for an expected Callable C (model: Pcore/Model/DescribeCallable.lean)
-    C ::= (callable P R B)    P ::= n | (tup (T*) none) | (tup (T*) (LO HI))    R ::= n | T    B ::= n | (r P R) | (o P R)
-    X ::= C | T
-    → empty | fault | ITEM …   with the full payloads: a Callable as `(callable P R B)`, a block type as `(callable P R n)` or
-      `(opt (callable P R n))` -/
-def cmStr : CM → String
-  | .param m => itemFull m
-  | .missingRequiredBlock p => s!"(mrb {pathStr p})"
-  | .blockTm p e a => s!"(tm {pathStr p} {blkStr e} {blkStr a})"
-  | .returnTm p e a => s!"(tm {pathStr p} {Lat.tyStr e} {Lat.tyStr a})"
-  | .topTm p e a => s!"(tm {pathStr p} {ctStr e} {cactStr a})"
-
-def descc (e a : Sexp) : String :=
-  match ctOf e with
-  | none => "bad-op"
-  | some ce =>
-    match (match ctOf a with
-           | some ca => some (CAct.callable ca)
-           | none => (Lat.ty? a).map CAct.ty) with
-    | none => "bad-op"
-    | some act =>
-      match describeC Lat.cfg Lat.sfh ce act (subjectPath "x") with
-      | .fault _ => "fault"
-      | .ok [] => "empty"
-      | .ok ms =>
-          let ps := ms.filterMap fun m => match m with | .param x => some x | _ => none
-          if ps.length == ms.length then " ".intercalate ((sortRuns ps).map itemFull)   -- the description of the parameter tuples
-          else " ".intercalate (ms.map cmStr)
-
 def exec : List Sexp → String
-  | [.atom "descc", e, a] => descc e a
   | [.atom "sigd", sigs, args] => sigd sigs args (.atom "n")
   | [.atom "sigd", sigs, args, blk] => sigd sigs args blk
   | [.atom "descs", e, a] => descs e a
